@@ -494,6 +494,25 @@ def dealias_new_references(raw, known_refs=None):
     return cnt
 
 
+def collapse_deref_members(raw):
+    """`(*p).field`, left behind where a reference bound to `*p` was replaced by its binding, reads as `p->field`"""
+    cnt = 0
+    for sig, F in raw.items():
+        nodes = F.get("nodes") or []
+        for n in nodes:
+            if n.get("k") == "MemberExpr" and not n.get("arrow") and n.get("c"):
+                b_ = n["c"][0]
+                seen_deal = False
+                while b_ >= 0 and nodes[b_]["k"] in TRANSPARENT and nodes[b_].get("c"):
+                    seen_deal = seen_deal or bool(nodes[b_].get("dealiased"))
+                    b_ = nodes[b_]["c"][0]
+                if seen_deal and b_ >= 0 and nodes[b_]["k"] == "UnaryOperator" and nodes[b_].get("op") == "*" and nodes[b_].get("c"):
+                    n["arrow"] = True
+                    n["c"] = [nodes[b_]["c"][0]]
+                    cnt += 1
+    return cnt
+
+
 KNOWN_PTRS_FILE = os.path.join(os.path.dirname(os.path.abspath(__file__)), "known_ptr_locals.json")
 
 
@@ -578,7 +597,13 @@ def dealias_new_snapshots(raw, make_function, known=None):
                     bad = True
                 # used as an lvalue (no lvalue-to-rvalue conversion above it): bound to a reference parameter or reference local -
                 # whoever holds the reference assigns to the LOCAL, not to the path it was copied from
-                if pn["k"] in ("CallExpr", "CXXMemberCallExpr", "CXXConstructExpr", "CXXOperatorCallExpr", "DeclStmt") and \
+                lvalue_use = True
+                raw_ = f.parent.get(u)
+                while raw_ is not None and nodes[raw_]["k"] in TRANSPARENT:
+                    if nodes[raw_].get("ck") == "LValueToRValue":
+                        lvalue_use = False      # the value is read here, nothing is bound to the variable
+                    raw_ = f.parent.get(raw_)
+                if lvalue_use and pn["k"] in ("CallExpr", "CXXMemberCallExpr", "CXXConstructExpr", "CXXOperatorCallExpr", "DeclStmt") and \
                    not (pn["k"] != "DeclStmt" and pn.get("c") and f.strip(pn["c"][0]) == u):
                     bad = True
                 if pn["k"] in ("BinaryOperator", "CompoundAssignOperator") and (pn.get("op") == "=" or pn["k"] == "CompoundAssignOperator") \
